@@ -100,7 +100,8 @@ def canonServices : Services → Except String Services
     | .ext (.str ref), .ok r' => .ok ((n, .ext (.map (.str ref) .absent)) :: r')
     | s, .ok r' => .ok ((n, s) :: r')
 
-/-- `absExtendsPath` (run by `paths.ResolveRelativePaths` on the loaded file) asserts `value.(string)` -/
+/-- `absExtendsPath` (run by `paths.ResolveRelativePaths` on the loaded file) rejects a non-string `extends.file`
+("unexpected type …"; before `fix: an extends.file that is not a string is reported as an error` it asserted `value.(string)`) -/
 def hasNonStringFile (svcs : Services) : Bool :=
   svcs.any (fun p => match p.2 with | .ext (.map _ .other) => true | _ => false)
 
@@ -129,7 +130,7 @@ def locate (fs : FS) (main : String) (svcs : Services) (e : ExtVal) : Except Res
         match lookup ref other with
         | none => .error (.err "notFoundInFile")
         | some _ =>
-          if hasNonStringFile other then .error (.panic "paths.absExtendsPath:value.(string)")
+          if hasNonStringFile other then .error (.err "pathNotString")
           else .ok (ref, f, some other)
 
 /--
@@ -149,10 +150,12 @@ def resolve (fs : FS) (main : String) : Nat → Services → String → Tracker 
       match locate fs main svcs e with
       | .error r => (r, false, svcs)
       | .ok (ref, file, target) =>
-        match tr.add ⟨file, name⟩ with
+        -- since `fix: the extends cycle tracker records the file the extending service lives in`: the key is the
+        -- *current* file (`main`), and the recursion continues with the referenced file as current file
+        match tr.add ⟨main, name⟩ with
         | none => (.err "circular", false, svcs)
         | some tr' =>
-          match resolve fs main fuel (target.getD svcs) ref tr' with
+          match resolve fs file fuel (target.getD svcs) ref tr' with
           | (.ok, true, svcs') => (.ok, false, if target.isSome then svcs else svcs')   -- `base == nil`: returned as is, no memo
           | (.ok, false, svcs') => (.ok, false, setKey name .plain (if target.isSome then svcs else svcs'))
           | (r, _, svcs') => (r, false, if target.isSome then svcs else svcs')
@@ -214,22 +217,25 @@ end Inc
 
 namespace Dep
 
-/-- the service graph: vertex ↦ children, both in name order (`utils.MapKeys` sorts) -/
-abbrev G := List (String × List String)
+/-- a directed graph: vertex ↦ children, in the order the code visits them (for `graph.checkCycle`: service names,
+both in name order since `utils.MapKeys` sorts; for the YAML node check of loader/reset.go: node indices) -/
+abbrev G (α : Type) := List (α × List α)
 
-def children (g : G) (v : String) : List String :=
+variable {α : Type} [DecidableEq α]
+
+def children (g : G α) (v : α) : List α :=
   match g with
   | [] => []
   | (k, cs) :: r => if v = k then cs else children r v
 
-inductive R where
+inductive R (α : Type) where
   | ok
-  | cycle (path : List String)     -- "dependency cycle detected: a -> b -> a"
+  | cycle (path : List α)     -- "dependency cycle detected: a -> b -> a"
   | outOfFuel
 deriving Repr, DecidableEq, Inhabited
 
 /-- the loop of `searchCycle` over `v.children` (`search` = the recursive call) -/
-def searchChildren (search : List String → String → R) (path : List String) : List String → R
+def searchChildren (search : List α → α → R α) (path : List α) : List α → R α
   | [] => .ok
   | name :: rest =>
     if name ∈ path then .cycle (path.dropWhile (· ≠ name) ++ [name])
@@ -238,19 +244,19 @@ def searchChildren (search : List String → String → R) (path : List String) 
       | r => r
 
 /-- `searchCycle(path, v)`; `fuel` bounds the depth of the search -/
-def searchCycle (g : G) : Nat → List String → String → R
+def searchCycle (g : G α) : Nat → List α → α → R α
   | 0, _, _ => .outOfFuel
   | fuel + 1, path, v => searchChildren (searchCycle g fuel) path (children g v)
 
 /-- `checkCycle`: start a search at every vertex -/
-def checkFrom (g : G) (fuel : Nat) : List String → R
+def checkFrom (g : G α) (fuel : Nat) : List α → R α
   | [] => .ok
   | v :: rest =>
     match searchCycle g fuel [v] v with
     | .ok => checkFrom g fuel rest
     | r => r
 
-def checkCycle (g : G) (fuel : Nat) : R := checkFrom g fuel (g.map Prod.fst)
+def checkCycle (g : G α) (fuel : Nat) : R α := checkFrom g fuel (g.map Prod.fst)
 
 end Dep
 end CV.C01
